@@ -7,7 +7,7 @@ namespace N2k.Rx
 /-- the frames of a timed history that pass the TP / known-message gates, in arrival order -/
 def handledFrames (c : Cfg) (evs : List (Nat × Frame)) : List Frame := (evs.map (·.2)).filter (handled c)
 
-theorem isFP_zero : isFP 0 = false := by simp [isFP]
+theorem isFP_zero (c : Cfg) : isFP c 0 = false := by simp [isFP, classify]
 
 theorem handledFrames_cons (c : Cfg) (e : Nat × Frame) (rest : List (Nat × Frame)) :
     handledFrames c (e :: rest) = (if handled c e.2 then [e.2] else []) ++ handledFrames c rest := by
@@ -31,10 +31,26 @@ theorem rxCore_N (isFP : Nat → Bool) (st : St) (now : Nat) (f : Frame) : (rxCo
     · exact finish_N _ _ _
     · rfl
 
+theorem tpUse_N (ok : Bool) (st : St) (i now pgn src dst n : Nat) : (tpUse ok st i now pgn src dst n).N = st.N := by
+  unfold tpUse; split <;> rfl
+
+theorem rxTPOpen_N (c : Cfg) (st : St) (now : Nat) (f : Frame) : (rxTPOpen c st now f).N = st.N := by
+  unfold rxTPOpen
+  simp only
+  split
+  · rw [tpUse_N]; rfl
+  · split
+    · rw [tpUse_N]; rfl
+    · split
+      · rw [tpUse_N]; rfl
+      · rfl
+
 theorem rx_N (c : Cfg) (st : St) (now : Nat) (f : Frame) : (rx c st now f).1.N = st.N := by
   unfold rx; split
   · exact rxCore_N _ _ _ _
-  · rfl
+  · split
+    · exact rxTPOpen_N _ _ _ _
+    · rfl
 
 theorem run_N (c : Cfg) : ∀ (evs : List (Nat × Frame)) (st : St), (run c st evs).N = st.N
   | [], _ => rfl
@@ -43,25 +59,28 @@ theorem run_N (c : Cfg) : ∀ (evs : List (Nat × Frame)) (st : St), (run c st e
     rw [run_N c rest, rx_N]
 
 /-- `rx` = gates + `rxCore` -/
-theorem rx_spec (c : Cfg) (st : St) (H : List Frame) (hI : Inv isFP st H) (now : Nat) (f : Frame) (hf : WFrame f) :
-    Inv isFP (rx c st now f).1 (H ++ (if handled c f then [f] else [])) ∧
-    (∀ m, (rx c st now f).2 = some m → handled c f = true ∧ Delivery isFP (H ++ [f]) f m ∧
-      ∀ j, j < st.N → ((rx c st now f).1.slot j).free = false →
+theorem rx_spec (c : Cfg) (st : St) (H : List Frame) (hI : Inv (isFP c) st H) (now : Nat) (f : Frame) (hf : WFrame f) :
+    Inv (isFP c) (rx c st now f).1 (H ++ (if handled c f then [f] else [])) ∧
+    (∀ m, (rx c st now f).2 = some m → handled c f = true ∧ Delivery (isFP c) (H ++ [f]) f m ∧
+      ∀ j, j < st.N → ((rx c st now f).1.slot j).free = false → ((rx c st now f).1.slot j).tp = false →
         ¬ (((rx c st now f).1.slot j).pgn = m.pgn ∧ ((rx c st now f).1.slot j).src = m.src)) := by
   unfold rx
   by_cases h : handled c f = true
   · simp only [h, ↓reduceIte]
-    obtain ⟨a, b⟩ := rxCore_spec isFP isFP_zero st H hI now f hf
+    obtain ⟨a, b⟩ := rxCore_spec (isFP c) (isFP_zero c) st H hI now f hf
     exact ⟨a, fun m hm => ⟨trivial, (b m hm).1, (b m hm).2⟩⟩
   · simp only [h, Bool.false_eq_true, ↓reduceIte, List.append_nil]
-    exact ⟨hI, fun m hm => by cases hm⟩
+    split
+    · exact ⟨rxTPOpen_inv c hI now f, fun m hm => by cases hm⟩
+    · exact ⟨hI, fun m hm => by cases hm⟩
 
 /-- every delivery made while a history is processed has its witness among the handled frames received so far -/
 theorem outputs_spec (c : Cfg) : ∀ (evs : List (Nat × Frame)) (st : St) (H : List Frame),
-    Inv isFP st H → (∀ e ∈ evs, WFrame e.2) → ∀ i m, (outputs c st evs)[i]? = some (some m) →
+    Inv (isFP c) st H → (∀ e ∈ evs, WFrame e.2) → ∀ i m, (outputs c st evs)[i]? = some (some m) →
     ∃ e, evs[i]? = some e ∧ handled c e.2 = true ∧
-      Delivery isFP (H ++ handledFrames c (evs.take (i+1))) e.2 m ∧
+      Delivery (isFP c) (H ++ handledFrames c (evs.take (i+1))) e.2 m ∧
       ∀ j, j < st.N → ((run c st (evs.take (i+1))).slot j).free = false →
+        ((run c st (evs.take (i+1))).slot j).tp = false →
         ¬ (((run c st (evs.take (i+1))).slot j).pgn = m.pgn ∧ ((run c st (evs.take (i+1))).slot j).src = m.src)
   | [], st, H, _, _, i, m, h => by simp [outputs] at h
   | e :: rest, st, H, hI, hwf, i, m, h => by
